@@ -1,6 +1,8 @@
 import RedbModel.Model.Buddy
 import RedbModel.Lemmas.Buddy
 import RedbModel.Lemmas.BuddyMore
+import RedbModel.Model.Region
+import RedbModel.Lemmas.RegionRun
 /-!
 # C14 — The page allocator never double-allocates and never loses space
 
@@ -8,6 +10,11 @@ Property theorems about the model `RedbModel/Model/Buddy.lean` of
 `src/tree_store/page_store/buddy_allocator.rs`. The definitions `FreeAt`, `PageFree`, `Inv`
 live in `Lemmas/Buddy.lean`. Statements here are the obligations counted by the check;
 helper lemmas live in `Lemmas/`.
+
+Second part (namespace `Redb.Region`): the REGION level, model `RedbModel/Model/Region.lean` of
+`region.rs` (`RegionTracker`, `Allocators`, `resize_to`) and of its use in `page_manager.rs`
+(`allocate_helper_retry`, `free_helper`, `grow`, `try_shrink`, `load_allocator_state`). The
+invariant `TrackerSound` is defined in `Lemmas/Region.lean`.
 -/
 namespace Redb.Buddy
 
@@ -101,3 +108,216 @@ theorem c14_serialize_roundtrip (b : Buddy)
   more_fromBytes_toBytes b h hmo hlen hsz
 
 end Redb.Buddy
+
+/-! ## Region level: the tracker never hides space and never offers a region that does not exist -/
+namespace Redb.Region
+open Redb.Buddy
+
+/-- `Allocators::new(layout)` establishes the invariant. -/
+theorem c14_region_init (cap : Nat) (l : Layout) (hwf : l.wf cap = true) :
+    TrackerSound (St.new cap l) :=
+  newWith_sound initialRegions cap l hwf
+
+/-- `allocate_helper` (find_free / alloc / mark_full retry loop, `grow`, retry) preserves the
+invariant. -/
+theorem c14_region_allocate_inv (s s' : St) (o r p : Nat) (lowest : Bool) (h : TrackerSound s)
+    (ha : allocate s o lowest = some (s', r, p)) : TrackerSound s' :=
+  (allocate_spec h ha).1
+
+/-- `free_helper` preserves the invariant, under the client contract of `free` (the block lies in
+the region and none of its pages is free): the region is marked free up to the MERGED order. -/
+theorem c14_region_free_inv (s : St) (r p o : Nat) (b : Buddy) (h : TrackerSound s)
+    (hr : s.regions[r]? = some b) (ho : o ≤ b.maxOrder) (hrange : (p + 1) * 2 ^ o ≤ b.len)
+    (hheld : ∀ q, q / 2 ^ o = p → ¬ PageFree b.maxOrder b.free q) :
+    ∃ s', free s r p o = some s' ∧ TrackerSound s' := by
+  obtain ⟨s', _, h1, h2, _⟩ := free_sound h hr ho hrange hheld
+  exact ⟨s', h1, h2⟩
+
+/-- `Allocators::resize_to(layout)` preserves the invariant for every target layout: growing
+(existing regions resized and re-marked, new regions appended, tracker bitmaps extended) and
+shrinking (dropped regions marked full for every order, last region trimmed). -/
+theorem c14_region_resize_inv (s s' : St) (nl : Layout) (h : TrackerSound s)
+    (hs : resizeTo s nl = some s') : TrackerSound s' :=
+  (resizeTo_sound h hs).1
+
+/-- `load_allocator_state`: a saved state that satisfied the invariant, resized to the layout of
+the header, satisfies it. -/
+theorem c14_region_load_inv (s s' : St) (saved : List Buddy × List Bits) (l : Layout)
+    (h : TrackerSound { s with regions := saved.1, tracker := saved.2 })
+    (hs : load s saved l = some s') : TrackerSound s' :=
+  (load_sound h hs).1
+
+/-- The invariant holds in every state reachable from a fresh database by any sequence of
+`allocate` / `allocate_lowest`, `free` (client contract), `resize_to` (any layout), `grow`,
+`try_shrink`, saving the allocator state, loading it for any header layout, resetting it and
+`mark_page_allocated`; and the saved state satisfies it as well. -/
+theorem c14_region_inv_reachable (cap : Nat) (l : Layout) (hwf : l.wf cap = true) (ops : List Op)
+    (d : Db) (hr : run (Db.init cap l) ops = some d) :
+    TrackerSound d.mem ∧
+    ∀ sv, d.disk = some sv → TrackerSound { d.mem with regions := sv.1, tracker := sv.2 } :=
+  run_sound ops ⟨c14_region_init cap l hwf, fun _ h => by cases h⟩ hr
+
+/-- Completeness: whenever some existing region has a free block of order `≥ o`, `allocate o`
+succeeds in the retry loop, i.e. WITHOUT growing the database (layout and number of regions
+unchanged), and never panics. "A region that contains a suitable free block is never reported
+full." -/
+theorem c14_region_alloc_complete (s : St) (o : Nat) (lowest : Bool) (h : TrackerSound s)
+    (hex : ∃ (r : Nat) (b : Buddy), s.regions[r]? = some b ∧ FreeGE b o) :
+    ∃ s' r p, allocNoGrow s o lowest = some (s', some (r, p)) ∧
+      allocate s o lowest = some (s', r, p) ∧ TrackerSound s' ∧
+      s'.layout = s.layout ∧ s'.regions.length = s.regions.length := by
+  obtain ⟨s', r, p, h1, h2, h3, h4, _⟩ := allocNoGrow_complete h lowest hex
+  refine ⟨s', r, p, h1, by simp only [allocate, h1], h2, h4, ?_⟩
+  obtain ⟨_, _, _, e, _⟩ := h3
+  rw [e, List.length_set]
+
+/-- Soundness: the block handed out lies inside an existing region `r` of the state `s0` in which
+the successful `alloc` took place; all of its pages were free there and are not free afterwards;
+every other page of that region and every other region is untouched (`Allocated`). `s0` has
+exactly the allocators of `s`, or it is `grow` applied to a state with the allocators of `s` in
+which no region had a free block of order `≥ o` (for what `grow` does to the existing pages see
+`c14_region_grow_frame`). Hence no page is handed out twice across the whole database. -/
+theorem c14_region_alloc_sound (s s' : St) (o r p : Nat) (lowest : Bool) (h : TrackerSound s)
+    (ha : allocate s o lowest = some (s', r, p)) :
+    ∃ s0, TrackerSound s0 ∧
+      (∃ b b', s0.regions[r]? = some b ∧ s'.regions = s0.regions.set r b' ∧
+        b'.len = b.len ∧ b'.maxOrder = b.maxOrder ∧ (p + 1) * 2 ^ o ≤ b.len ∧
+        (∀ q, q / 2 ^ o = p → PageFree b.maxOrder b.free q ∧ ¬ PageFree b.maxOrder b'.free q) ∧
+        (∀ q, q / 2 ^ o ≠ p → (PageFree b.maxOrder b'.free q ↔ PageFree b.maxOrder b.free q))) ∧
+      (s0.regions = s.regions ∨
+        ∃ s1, s1.regions = s.regions ∧ TrackerSound s1 ∧
+          (∀ (r : Nat) (b : Buddy), s1.regions[r]? = some b → ¬ FreeGE b o) ∧ grow s1 o = some s0) :=
+  (allocate_spec h ha).2.2
+
+/-- The grow branch of `resize_to` keeps the status of every page of every existing region and
+adds exactly the pages the region grows by (so an allocated page is never free afterwards). -/
+theorem c14_region_grow_frame (s s' : St) (nl : Layout) (h : TrackerSound s)
+    (hwf : nl.wf s.cap = true) (hs : growPath s nl = some s') :
+    TrackerSound s' ∧ s'.regions.length = max s.regions.length nl.numRegions ∧
+    ∀ (r : Nat) (b : Buddy), s.regions[r]? = some b →
+      ∃ b', s'.regions[r]? = some b' ∧ b'.maxOrder = b.maxOrder ∧ b.len ≤ b'.len ∧
+        ∀ q, PageFree b.maxOrder b'.free q ↔ (PageFree b.maxOrder b.free q ∨ (b.len ≤ q ∧ q < b'.len)) := by
+  obtain ⟨h1, _, _, h4, h5⟩ := growPath_spec h hwf hs
+  exact ⟨h1, h4, h5⟩
+
+/-- No loss: after `free` of a block of order `o`, an `allocate` of the same order succeeds
+without growing the database. -/
+theorem c14_region_free_reuse (s : St) (r p o : Nat) (b : Buddy) (lowest : Bool) (h : TrackerSound s)
+    (hr : s.regions[r]? = some b) (ho : o ≤ b.maxOrder) (hrange : (p + 1) * 2 ^ o ≤ b.len)
+    (hheld : ∀ q, q / 2 ^ o = p → ¬ PageFree b.maxOrder b.free q) :
+    ∃ s1 s2 r' p', free s r p o = some s1 ∧ allocNoGrow s1 o lowest = some (s2, some (r', p')) ∧
+      allocate s1 o lowest = some (s2, r', p') ∧ s2.layout = s.layout ∧
+      s2.regions.length = s.regions.length := by
+  obtain ⟨s1, b', h1, h2, h3, h4, _, _, _, _, h9⟩ := free_sound h hr ho hrange hheld
+  have hrl : r < s.regions.length := (List.getElem?_eq_some_iff.1 hr).1
+  obtain ⟨s2, r', p', g1, g2, _, g4, g5⟩ := c14_region_alloc_complete s1 o lowest h2
+    ⟨r, b', by rw [h3]; simp [hrl], h9⟩
+  exact ⟨s1, s2, r', p', h1, g1, g2, by rw [g4, h4], by rw [g5, h3, List.length_set]⟩
+
+/-- The check the driver evaluates on every decoded snapshot of the implementation is exactly the
+invariant. -/
+theorem c14_region_check_exact (s : St) : firstViolation s = none ↔ TrackerSound s :=
+  firstViolation_none_iff s
+
+/-! ### Non-vacuity: concrete multi-region states (4 pages per region, so orders 0..2) -/
+
+/-- two full regions and a trailing one of 2 pages -/
+example : TrackerSound (newWith 3 4 { numFull := 2, trailing := some 2 }) := by decide
+
+/-- five order-0 allocations fill region 0 and spill into region 1; an order-1 and an order-2
+request follow; the last one makes the database grow by a region -/
+example : (run { mem := newWith 3 4 { numFull := 2, trailing := none }, disk := none }
+    [.alloc 0 false, .alloc 0 false, .alloc 0 false, .alloc 0 false, .alloc 0 false,
+     .alloc 1 true, .alloc 2 false]).map (fun d => (d.mem.regions.length, d.mem.layout)) =
+    some (3, { numFull := 3, trailing := none }) := by decide +kernel
+
+/-- the state after four allocations: region 0 is full but still reported "not full" — the
+tracker is an optimistic cache, and this direction is allowed by the invariant -/
+example :
+    let s := (run { mem := newWith 3 4 { numFull := 2, trailing := none }, disk := none }
+      [.alloc 0 false, .alloc 0 false, .alloc 0 false, .alloc 0 false]).map (·.mem)
+    s.map (fun s => (getBit s.tracker 0 0, (s.regions.map (·.countFree)), decide (TrackerSound s))) =
+      some (false, [0, 4], true) := by decide +kernel
+
+/-- free, save, shrink to one region (region 1 is dropped), load the saved state for the small
+layout, grow again: every intermediate state is checked by `run`; here the final one -/
+example :
+    (run { mem := newWith 3 4 { numFull := 2, trailing := none }, disk := none }
+      [.alloc 0 false, .alloc 1 false, .free 0 0 0, .save, .tryShrink true,
+       .resizeTo { numFull := 1, trailing := none }, .load { numFull := 1, trailing := none },
+       .grow 2, .alloc 2 false]).map
+      (fun d => (d.mem.regions.length, decide (TrackerSound d.mem))) = some (2, true) := by
+  decide +kernel
+
+/-- a shrink that drops a region: the tracker reports the dropped index full for every order -/
+example :
+    (resizeTo (newWith 3 4 { numFull := 3, trailing := none }) { numFull := 1, trailing := some 2 }).map
+      (fun s => (s.regions.map (·.len), (List.range 3).map (fun r => getBit s.tracker 0 r),
+        decide (TrackerSound s))) = some ([4, 2], [false, false, true], true) := by
+  decide +kernel
+
+/-- Seeded defect 1 as a variant: `free` marks the region free up to `order + 1` at most instead
+of up to the merged order. -/
+def freeBad (s : St) (r p o : Nat) : Option St :=
+  match s.regions[r]? with
+  | none => none
+  | some b =>
+    some { s with regions := s.regions.set r (b.freeBlock p o).1,
+                  tracker := markFree s.tracker (min (b.freeBlock p o).2 (o + 1)) r }
+
+/-- region 0 is filled, found full and marked (5th allocation), then emptied again -/
+def emptiedAgain (lastFree : St → Nat → Nat → Nat → Option St) : Option St :=
+  ((run { mem := newWith 3 4 { numFull := 2, trailing := none }, disk := none }
+    [.alloc 0 false, .alloc 0 false, .alloc 0 false, .alloc 0 false, .alloc 0 false,
+     .free 0 0 0, .free 0 1 0, .free 0 2 0]).map (·.mem)).bind (fun s => lastFree s 0 3 0)
+
+/-- with the code as written the last `free` merges up to order 2 and region 0 is reported free
+for orders 0..2: the invariant holds, and an order-2 request is served from region 0 -/
+example : (emptiedAgain free).map (fun s => (firstViolation s, (allocNoGrow s 2 false).map (·.2))) =
+    some (none, some (some (0, 0))) := by decide +kernel
+
+/-- with the defect the whole of region 0 is free (one block of order 2) but the tracker keeps
+reporting it full for order 2: clause 1 is violated -/
+example : (emptiedAgain freeBad).map firstViolation = some (some (.hides 0 2)) := by decide +kernel
+
+example : (emptiedAgain freeBad).isSome = true ∧
+    (emptiedAgain freeBad).all (fun s => !decide (TrackerSound s)) = true := by decide +kernel
+
+/-- Seeded defect 2 as a variant: the shrink branch of `resize_to` without
+`mark_full(0, i)` for the dropped regions. -/
+def shrinkPathBad (s : St) (nl : Layout) : Option St :=
+  let rs := s.regions.take nl.numRegions
+  match rs.getLast? with
+  | none => none
+  | some a =>
+    if a.len > nl.lastPages s.cap then
+      match a.resize (nl.lastPages s.cap) with
+      | none => none
+      | some a' => some { s with regions := rs.set (rs.length - 1) a' }
+    else some { s with regions := rs }
+
+/-- region 0 is handed out as one order-2 block, then the database is shrunk to one region
+(region 1, entirely free, is dropped) -/
+def afterShrink (shrink : St → Layout → Option St) : Option St :=
+  (allocate (newWith 3 4 { numFull := 2, trailing := none }) 2 false).bind (fun x =>
+    (shrink x.1 { numFull := 1, trailing := none }).map
+      (fun s => { s with layout := { numFull := 1, trailing := none } }))
+
+/-- with the code as written the invariant holds, and the next allocation finds nothing, grows
+the database by a region and is served from the new region 1 -/
+example : (afterShrink shrinkPath).map (fun s => (firstViolation s,
+      (allocate s 0 false).map (fun x => (x.2, x.1.regions.length)))) =
+    some (none, some ((1, 0), 2)) := by decide +kernel
+
+/-- with the defect the tracker still offers region 1, which no longer exists: clause 2 is
+violated, and the next allocation indexes `region_allocators[1]` out of bounds (`none`) instead
+of growing the database -/
+example : (afterShrink shrinkPathBad).map (fun s => (firstViolation s, allocate s 0 false)) =
+    some (some (.ghost 1 0), none) := by decide +kernel
+
+/-- the decoder the driver applies to the bytes of `RegionTracker::to_vec` inverts the
+serialization (3 orders, 70 regions: two words per leaf bitmap, three levels) -/
+example : trackerFromBytes (trackerToBytes (markFree (trkNew 70 3) 1 66) 3) =
+    markFree (trkNew 70 3) 1 66 := by decide +kernel
+
+end Redb.Region
